@@ -18,6 +18,7 @@ SIM_FILES = ["simulator.py", "workload/tasks.py", "workload/workload.py", "workl
 STATE_CODE = {"VIRTUAL": 1, "RELEASED": 2, "SCHEDULED": 3, "RUNNING": 4, "PREEMPTED": 5, "EVICTED": 6, "COMPLETED": 7,
               "CANCELLED": 8}
 HEADER = "From Verif Require Import Gen.Src_Task Gen.Src_Event Model.Sim."
+MAX_LOG = 12000        # call logs beyond this size are not fed to Coq (the monitors still read them)
 
 
 def n_worlds(ctx):
@@ -71,19 +72,28 @@ def repo_fingerprint():
     return h.hexdigest()[:20]
 
 
-def run_worlds(worlds, jobs=14, chunk=12, timeout=900):
+def run_worlds(worlds, jobs=14, chunk=12, timeout=1800):
     """Run the real simulator on the worlds (parallel subprocesses)."""
-    chunks = [worlds[i:i + chunk] for i in range(0, len(worlds), chunk)]
+    # solver-backed worlds take seconds each: small chunks so that no adapter process runs for long
+    order = sorted(range(len(worlds)), key=lambda i: worlds[i]["flags"]["scheduler"] in simgen.PLANNERS)
+    light = [i for i in order if worlds[i]["flags"]["scheduler"] not in simgen.PLANNERS]
+    heavy = [i for i in order if worlds[i]["flags"]["scheduler"] in simgen.PLANNERS]
+    idx_chunks = [light[i:i + chunk] for i in range(0, len(light), chunk)] + [heavy[i:i + 2] for i in range(0, len(heavy), 2)]
+    chunks = [[worlds[i] for i in c] for c in idx_chunks]
 
     def one(ws):
         try:
             return core.run_impl("sim.py", {"worlds": ws}, timeout=timeout)["runs"]
         except Exception as e:      # a crashed adapter process: report every world of the chunk
-            return [{"status": "adapter-error", "error": str(e)[-800:], "log": [], "rows": [], "final": [],
-                     "idle": [], "counters": [], "graphs": []} for _ in ws]
+            st = "harness-timeout" if "rc=124" in str(e) or "TIMEOUT" in str(e) else "adapter-error"
+            return [{"status": st, "error": str(e)[-800:], "log": [], "rows": [], "final": [],
+                     "idle": [], "counters": [], "graphs": [], "sim_time": None} for _ in ws]
     with ThreadPoolExecutor(max_workers=jobs) as ex:
         res = list(ex.map(one, chunks))
-    out = [r for c in res for r in c]
+    out = [None] * len(worlds)
+    for c, rs in zip(idx_chunks, res):
+        for i, r in zip(c, rs):
+            out[i] = r
     for r in out:
         # the solvers installed here are size-limited: a model over the limit is a limit of the sandbox, not of /repo
         if r["status"] == "exception" and any(m in (r.get("error") or "") for m in
@@ -262,6 +272,9 @@ def machine_stream(ctx, worlds, runs, deps_built=True):
         if r["status"] == "adapter-error" or not r["log"]:
             skipped["adapter"] = skipped.get("adapter", 0) + 1
             continue
+        if len(r["log"]) > MAX_LOG:
+            skipped["log longer than %d entries" % MAX_LOG] = skipped.get("log longer than %d entries" % MAX_LOG, 0) + 1
+            continue
         gworld, gevs, nm, unsup, dom = convert(r, w)
         if unsup:
             skipped[unsup.split(" (")[0]] = skipped.get(unsup.split(" (")[0], 0) + 1
@@ -365,7 +378,7 @@ def machine_q_stream(ctx, worlds, runs):
     cases = []
     idx = []
     for i, (w, r) in enumerate(zip(worlds, runs)):
-        if r["status"] == "adapter-error" or not r["log"] or r["sim_time"] is None or not r["counters"]:
+        if r["status"] == "adapter-error" or not r["log"] or r["sim_time"] is None or not r["counters"] or len(r["log"]) > MAX_LOG:
             continue
         gworld, gevs, nm, unsup, dom = convert_q(r, w)
         if unsup or gevs is None:
